@@ -49,11 +49,36 @@
   {"Literal":"a"}]` decoded to the pattern `a` — a policy with a different meaning than the document and than the
   Cedar text `like "*a"` (regression examples below the theorems).
 
-  NOT PROVED HERE (direct oracle only, harness/cmd/vh/c09.go): agreement with the TEXT codec (needs the parser /
-  printer models of C07 / C08).
+  AGREEMENT WITH THE TEXT CODEC (last section; helper lemmas Lemmas/C09TextJson.lean) — proved by composing the C07
+  parser model (`Text.parsePolicy`), the C08 marshaller model (`Text.marshalPolicy`, `C08_marshal_parses_partial`) and the
+  JSON model.  The three models share ONE AST (`Policy` / `Expr`), so no bridge is needed.
+  * `C09_parser_output_json_renderable` / `C09_parser_output_json_sem_normal` / `C09_parsed_text_through_json` (FULL, every
+    token list, no side condition): whatever the text parser returns lies in `JsonRenderable ∩ JsonSemNormal`; hence its
+    JSON encoding decodes, to the same policy up to `JsonEquiv`, with the same effect and outcome in every environment.
+    (The two open literal-VALUE defects — first-day datetime, IPv4-mapped ip — cannot be reached from text: in a text
+    they are constructor CALLS.)  Proof: an invariant of the parser for every predicate closed under its construction
+    sites (`C09TJ.ParserClosed`, `C09TJ.parsePolicy_closed`).
+  * `C09_text_fragment_json_renderable`, `C09_normP_preserves_text_fragment`: the text fragment `policyOKGo` (domain of
+    the C08 theorem) lies inside both JSON fragments, `normP` maps it into itself and is idempotent on it — so the
+    cross-format theorems need NO hypothesis beyond `policyOKGo`.
+  * `C09_text_json_text`, `C09_json_text_json`, `C09_parsed_text_json_text`, `C09_all_encodings_authorize_alike` on
+    `policyOKGo`: text → JSON → text and JSON → text → JSON succeed at every step and give `normP p` (text alone: `p`;
+    JSON alone: `normP p`); the policy obtained through any of the four paths has the effect and outcome of `p` in every
+    environment and can replace `p` in any policy set without changing `Authorize`.
+  What `policyOKGo` excludes, and why (all inherited from C08 / C07, nothing new): `-`(non-negative literal) — written
+  `-5` and read back as the LITERAL −5, so text → … yields a different tree with the same meaning
+  (`C08_negate_literal_same_meaning`; the harness reports it as `text-normalises-negated-literal`); literal VALUES of
+  sets / records / extension types (no literal syntax: C08's `policyOKGoV` theorems read them back as `valExpr`, and JSON
+  rewrites decimal / ip values into calls); trees that are the parse of no Cedar text (entity types that are not
+  paths, repeated record / annotation keys, unknown or receiver-less calls, `principal in [..]`, `action is ..`,
+  patterns outside `NewPattern` normal form, a non-zero source position — JSON drops it).
+  Tie: driver op `c09-cross` runs the MODEL's pipelines (toJ → fromJ → marshalPolicy → parsePolicy → toJ → fromJ →
+  marshalPolicy → parsePolicy) and the harness compares every stage with Go's `MarshalJSON` / `UnmarshalJSON` /
+  `MarshalCedar` / `UnmarshalCedar` on the same generated policies (harness/cmd/vh/c09_cross.go).
 -/
 import CedarGoProofs.Lemmas.C09Leaves
 import CedarGoProofs.Lemmas.C09Pattern
+import CedarGoProofs.Lemmas.C09TextJson
 namespace CedarGo
 open JsonModel
 
@@ -292,5 +317,219 @@ example : (match setFromJ (.obj [("staticPolicies", .obj [("a", .null)])]) with 
 
 /-- regression: `{"lessThan":[]}` is refused (was: accepted, and `MarshalCedar` of the result panicked) -/
 example : fromJ (condDoc (.obj [("lessThan", .arr [])])) = .error .reject := isRejectP_eq (by decide +kernel)
+
+/-! ### the TEXT codec and the JSON codec agree (composition of the C07 parser, the C08 marshaller and the JSON model) -/
+
+open CedarGo.Text in
+/-- one trip through the text codec: `Policy.MarshalCedar`, then `Policy.UnmarshalCedar` on the tokens of that text
+    (`none`: the text is refused) -/
+def textRound (p : Policy) : Option Policy :=
+  match parsePolicy (pieceToks (marshalPolicy p)) with
+  | some (.ok q) => some q
+  | _ => none
+
+/-- one trip through the JSON codec: `Policy.MarshalJSON`, then `Policy.UnmarshalJSON` (`none`: the document is refused) -/
+def jsonRound (p : Policy) : Option Policy :=
+  match fromJ (toJ p) with
+  | .ok q => some q
+  | .error _ => none
+
+section textjson
+open CedarGo.Text CedarGo.C09TJ
+
+/-- **Whatever the text parser returns can be carried by JSON** — for EVERY token list, no side condition: the parser
+    builds bool / long (int64) / string / entity literals only (`ip("…")`, `decimal("…")`, `datetime("…")` in a text are
+    CALLS, not values: the two open literal-value defects cannot be reached from text), extension calls of known
+    functions only and method calls with their receiver, record literals without repeated keys, `like` patterns in
+    `NewPattern` normal form over valid UTF-8, and the scope forms of the grammar. -/
+theorem C09_parser_output_json_renderable (ts : List Token) (p : Policy) (h : parsePolicy ts = some (.ok p)) :
+    p.JsonRenderable :=
+  renderableP_of_parts (parsePolicy_closed renderable_closed ts p h)
+
+/-- … and lies in the fragment on which the JSON identifications provably keep the meaning -/
+theorem C09_parser_output_json_sem_normal (ts : List Token) (p : Policy) (h : parsePolicy ts = some (.ok p)) :
+    p.JsonSemNormal := by
+  unfold Policy.JsonSemNormal
+  simp only [List.all_eq_true]
+  exact (parsePolicy_closed semNormal_closed ts p h).2.2.2
+
+/-- the same for every policy of a parsed DOCUMENT (`PolicySlice.UnmarshalCedar` / `NewPolicySetFromBytes`, any token list) -/
+theorem C09_parser_output_list_json_renderable (ts : List Token) (ps : List Policy) (h : parsePolicies ts = some (.ok ps)) :
+    ∀ p ∈ ps, p.JsonRenderable ∧ p.JsonSemNormal := by
+  intro p hp
+  refine ⟨renderableP_of_parts (parsePolicies_closed renderable_closed ts ps h p hp), ?_⟩
+  unfold Policy.JsonSemNormal
+  simp only [List.all_eq_true]
+  exact (parsePolicies_closed semNormal_closed ts ps h p hp).2.2.2
+
+/-- **text → JSON, every parsed text**: the policy parsed from ANY token list is encoded to JSON and decoded again
+    successfully, to the same policy up to the identifications (`JsonEquiv`: annotations / record entries by key,
+    position dropped), with the same effect and the same outcome (satisfied / not satisfied / same error kind) in every
+    environment, both as `PolicyToNode` says and as the authorizer's compiled form computes it. -/
+theorem C09_parsed_text_through_json (ts : List Token) (p : Policy) (h : parsePolicy ts = some (.ok p)) :
+    ∃ q, fromJ (toJ p) = .ok q ∧ JsonEquiv q p ∧ q.effect = p.effect ∧
+      ∀ env, evalBool (policyToExpr q) env = evalBool (policyToExpr p) env ∧ evalBool (compile q) env = evalBool (compile p) env := by
+  have hr := C09_parser_output_json_renderable ts p h
+  have hs := C09_parser_output_json_sem_normal ts p h
+  refine ⟨normP p, json_roundtrip p hr, rfl, rfl, fun env => ?_⟩
+  exact (C09_encodings_authorize_alike_partial p (normP p) hr hs (json_roundtrip p hr) env).2
+
+/-- **the text fragment lies inside the JSON fragments**: every policy of `policyOKGo` (the domain of
+    `C08_marshal_parses_partial`) is JSON-renderable and semantically normal -/
+theorem C09_text_fragment_json_renderable (p : Policy) (h : policyOKGo p = true) : p.JsonRenderable ∧ p.JsonSemNormal := by
+  refine ⟨renderableP_of_parts (policyOKGo_closed renderable_closed p h), ?_⟩
+  unfold Policy.JsonSemNormal
+  simp only [List.all_eq_true]
+  exact (policyOKGo_closed semNormal_closed p h).2.2.2
+
+/-- **`normP` preserves the text fragment** and is idempotent on it: what JSON changes in a policy of the fragment is the
+    listing order of annotations and of record entries, nothing else (patterns of the fragment are fixed points of
+    `Pattern.MarshalJSON` ∘ `UnmarshalJSON`: `C09TJ.normPattern_of_patOK`) -/
+theorem C09_normP_preserves_text_fragment (p : Policy) (h : policyOKGo p = true) :
+    policyOKGo (normP p) = true ∧ normP (normP p) = normP p :=
+  ⟨policyOKGo_normP p h, normP_idem p h⟩
+
+/-- C08 in terms of `textRound`: on the text fragment a trip through the text codec returns the identical policy -/
+theorem C09_textRound_of_fragment {p : Policy} (h : policyOKGo p = true) : textRound p = some p := by
+  unfold textRound; rw [marshal_parses h]
+
+/-- `C09_json_roundtrip_partial` in terms of `jsonRound` -/
+theorem C09_jsonRound_of_renderable {p : Policy} (h : p.JsonRenderable) : jsonRound p = some (normP p) := by
+  unfold jsonRound; rw [json_roundtrip p h]
+
+/-- **text → JSON → text** yields the same policy as text alone: for `p` in the text fragment, writing `p` as Cedar text
+    and reading it gives `p` (C08); encoding THAT as JSON, decoding, writing the result as Cedar text and reading it
+    again succeeds at every step and gives `normP p`, the policy `p` up to the JSON identifications (`JsonEquiv`) — and a
+    further trip through the text codec changes nothing any more. -/
+theorem C09_text_json_text (p : Policy) (h : policyOKGo p = true) :
+    textRound p = some p ∧
+    ((textRound p).bind jsonRound).bind textRound = some (normP p) ∧ JsonEquiv (normP p) p ∧
+    textRound (normP p) = some (normP p) := by
+  have hj := C09_jsonRound_of_renderable (C09_text_fragment_json_renderable p h).1
+  have ht := C09_textRound_of_fragment (policyOKGo_normP p h)
+  refine ⟨C09_textRound_of_fragment h, ?_, rfl, ht⟩
+  rw [C09_textRound_of_fragment h, Option.bind_some, hj, Option.bind_some, ht]
+
+/-- **JSON → text → JSON** yields the same policy as JSON alone: for `p` in the text fragment, encoding `p` as JSON and
+    decoding gives `normP p` (the JSON round trip); writing THAT as Cedar text, reading it, encoding the result as JSON
+    and decoding succeeds at every step and gives `normP p` again, exactly.  Also in the order of the task statement:
+    the policy read from the text of `p`, sent through JSON, is `normP p`. -/
+theorem C09_json_text_json (p : Policy) (h : policyOKGo p = true) :
+    jsonRound p = some (normP p) ∧
+    ((jsonRound p).bind textRound).bind jsonRound = some (normP p) ∧
+    (textRound p).bind jsonRound = some (normP p) := by
+  have hj := C09_jsonRound_of_renderable (C09_text_fragment_json_renderable p h).1
+  have hn := policyOKGo_normP p h
+  have hjn := C09_jsonRound_of_renderable (C09_text_fragment_json_renderable (normP p) hn).1
+  rw [normP_idem p h] at hjn
+  refine ⟨hj, ?_, ?_⟩
+  · rw [hj, Option.bind_some, C09_textRound_of_fragment hn, Option.bind_some, hjn]
+  · rw [C09_textRound_of_fragment h, Option.bind_some, hj]
+
+/-- the same for a text that was actually PARSED (any token list): if the parsed policy, its source position set aside,
+    is in the text fragment, then parse → JSON → decode → `MarshalCedar` → parse gives `normP p` -/
+theorem C09_parsed_text_json_text (ts : List Token) (p : Policy) (h : parsePolicy ts = some (.ok p))
+    (hf : policyOKGo { p with position := {} } = true) :
+    (jsonRound p).bind textRound = some (normP p) := by
+  rw [C09_jsonRound_of_renderable (C09_parser_output_json_renderable ts p h), Option.bind_some]
+  have := policyOKGo_normP _ hf
+  rw [normP_position] at this
+  exact C09_textRound_of_fragment this
+
+/-- **All encodings authorize alike**: for `p` in the text fragment the policy obtained through ANY of the four paths —
+    text, JSON, text → JSON, JSON → text — exists, has the effect of `p`, has the same outcome as `p` (satisfied / not
+    satisfied / the same error kind) in every environment (request + entity store), as `PolicyToNode` says and as the
+    compiled form computes it, and can replace `p` in any policy set without changing the result of `Authorize`
+    (decision, reasons, errors). -/
+theorem C09_all_encodings_authorize_alike (p : Policy) (h : policyOKGo p = true) :
+    ∃ qT qJ qTJ qJT, textRound p = some qT ∧ jsonRound p = some qJ ∧
+      (textRound p).bind jsonRound = some qTJ ∧ (jsonRound p).bind textRound = some qJT ∧
+      ∀ q ∈ [qT, qJ, qTJ, qJT], q.effect = p.effect ∧
+        (∀ env, evalBool (policyToExpr q) env = evalBool (policyToExpr p) env ∧
+                evalBool (compile q) env = evalBool (compile p) env) ∧
+        ∀ (pre post : List (PolicyID × Policy)) (id : PolicyID) (env : Env),
+          authorize (pre ++ (id, q) :: post) env = authorize (pre ++ (id, p) :: post) env := by
+  obtain ⟨hr, hs⟩ := C09_text_fragment_json_renderable p h
+  have hj := C09_jsonRound_of_renderable hr
+  have ht := C09_textRound_of_fragment h
+  have htn := C09_textRound_of_fragment (policyOKGo_normP p h)
+  have hnorm : normP p = normP p ∧ (normP p).effect = p.effect ∧
+      (∀ env, evalBool (policyToExpr (normP p)) env = evalBool (policyToExpr p) env ∧
+              evalBool (compile (normP p)) env = evalBool (compile p) env) ∧
+      ∀ (pre post : List (PolicyID × Policy)) (id : PolicyID) (env : Env),
+        authorize (pre ++ (id, normP p) :: post) env = authorize (pre ++ (id, p) :: post) env := by
+    have hev := fun env => (C09_encodings_authorize_alike_partial p (normP p) hr hs (json_roundtrip p hr) env).2
+    refine ⟨rfl, rfl, hev, fun pre post id env => ?_⟩
+    exact authorize_congr (p := p) (q := normP p) rfl (policyOKGo_position h).symm env (hev env).2 pre post id
+  refine ⟨p, normP p, normP p, normP p, ht, hj, ?_, ?_, ?_⟩
+  · rw [ht, Option.bind_some, hj]
+  · rw [hj, Option.bind_some, htn]
+  · intro q hq
+    simp only [List.mem_cons, List.not_mem_nil, or_false, or_self] at hq
+    rcases hq with rfl | rfl
+    · exact ⟨rfl, fun _ => ⟨rfl, rfl⟩, fun _ _ _ _ => rfl⟩
+    · exact hnorm.2
+
+/-- a policy of the text fragment with an operator, a record literal whose keys are NOT listed in order, a `like`, an
+    extension function call and a method call, a negative literal, unsorted annotations and every scope form -/
+def c09TextExample : Policy :=
+  { effect := .permit, annotations := [("id", "x"), ("a", "b")],
+    principal := .isIn "User" ("Group", "g"), action := .inSet [("Action", "r"), ("Action", "w")], resource := .eq ("NS::Doc", "d"),
+    conditions := [(true, .binop .and (.like (.access (.var .context) "s") [⟨false, [97]⟩, ⟨true, []⟩])
+                            (.call "isInRange" [.call "ip" [.lit (.str "10.0.0.1")], .call "ip" [.lit (.str "10.0.0.0/8")]])),
+                   (false, .binop .eq (.record [("k", .binop .add (.lit (.long 1)) (.lit (.long (-2)))), ("a", .set [.lit (.long 1)])])
+                             (.var .context))] }
+
+example : policyOKGo c09TextExample = true := by decide +kernel
+/-- JSON really changes this policy (annotations and record entries come back listed by key) -/
+example : (normP c09TextExample).annotations = [("a", "b"), ("id", "x")] ∧
+    ((normP c09TextExample).conditions.map fun c => match c.2 with
+      | .binop .eq (.record kes) _ => kes.map (·.1) | _ => []) = [[], ["a", "k"]] := by decide +kernel
+/-- the hypotheses of the parser-output theorems are met by the marshalled text of the example (C08), whose parse is
+    the example itself -/
+example : ∃ ts, parsePolicy ts = some (.ok c09TextExample) :=
+  ⟨_, marshal_parses (p := c09TextExample) (by decide +kernel)⟩
+example : c09TextExample.JsonRenderable ∧ c09TextExample.JsonSemNormal :=
+  C09_text_fragment_json_renderable _ (by decide +kernel)
+example : ((textRound c09TextExample).bind jsonRound).bind textRound = some (normP c09TextExample) :=
+  (C09_text_json_text _ (by decide +kernel)).2.1
+example : ((jsonRound c09TextExample).bind textRound).bind jsonRound = some (normP c09TextExample) :=
+  (C09_json_text_json _ (by decide +kernel)).2.1
+example : c09TextExample.JsonRenderable :=
+  C09_parser_output_json_renderable _ _ (marshal_parses (p := c09TextExample) (by decide +kernel))
+example : ∃ q, fromJ (toJ c09TextExample) = .ok q ∧ JsonEquiv q c09TextExample :=
+  let ⟨q, h1, h2, _⟩ := C09_parsed_text_through_json _ _ (marshal_parses (p := c09TextExample) (by decide +kernel)); ⟨q, h1, h2⟩
+example (env : Env) (others : List (PolicyID × Policy)) :
+    authorize (("p", normP c09TextExample) :: others) env = authorize (("p", c09TextExample) :: others) env := by
+  obtain ⟨qT, qJ, qTJ, qJT, _, hJ, _, _, hall⟩ := C09_all_encodings_authorize_alike c09TextExample (by decide +kernel)
+  rw [C09_jsonRound_of_renderable (C09_text_fragment_json_renderable _ (by decide +kernel)).1] at hJ
+  cases hJ
+  exact (hall _ (by simp)).2.2 [] others "p" env
+/-- the pipelines are executable (evaluated by the kernel): JSON → text on a small policy of the fragment returns the
+    annotations and the record entries listed by key -/
+example :
+    let p : Policy :=
+      { effect := .forbid, annotations := [("b", "1"), ("a", "2")], principal := .eq ("User", "x"),
+        conditions := [(true, .has (.record [("k", .call "decimal" [.lit (.str "1.5")]), ("a", .like (.var .context) [⟨true, [97]⟩])]) "k")] }
+    (match (jsonRound p).bind textRound with
+      | some q => decide (q.annotations = [("a", "2"), ("b", "1")]) && (match q.conditions with
+         | [(true, .has (.record [("a", _), ("k", _)]) "k")] => true | _ => false)
+      | none => false) = true := by decide +kernel
+/-- why `-`(non-negative literal) is outside the fragment (inherited from C08): `-(5)` is written `-5`, which is read
+    back as the LITERAL −5 — text → … does not return the same tree (it does return the same meaning:
+    `C08_negate_literal_same_meaning`), while JSON alone keeps the tree -/
+example :
+    let p : Policy := { effect := .permit, conditions := [(true, .unop .neg (.lit (.long 5)))] }
+    policyOKGo p = false ∧ p.JsonRenderable ∧
+    (match textRound p with
+      | some q => (match q.conditions with | [(true, .lit (.long (-5)))] => true | _ => false)
+      | none => false) = true ∧
+    (match jsonRound p with
+      | some q => (match q.conditions with | [(true, .unop .neg (.lit (.long 5)))] => true | _ => false)
+      | none => false) = true := by decide +kernel
+/-- `C09_parsed_text_json_text`: a policy parsed from a token list with a non-zero position -/
+example : policyOKGo { ({ c09TextExample with position := ⟨"", 7, 2, 3⟩ } : Policy) with position := {} } = true := by decide +kernel
+
+end textjson
 
 end CedarGo
